@@ -1,5 +1,2038 @@
-use crate::Ctx;
+//! C17 - teehistorian reading is independent of stream fragmentation; tick numbering and running
+//! sums follow doc/teehistorian.md.
+//!
+//! Generator: a teehistorian writer (header JSON + messages) written from doc/teehistorian.md, fed by
+//! a random server history; fragmentation schedules for the `read_at_most` callback.
+//! Oracles: (1) metamorphic - every fragmentation yields the same header/items/end as the one-piece
+//! read; (2) the document's tick pseudo-code assigns a tick to every message, the reader's
+//! TickStart/TickEnd items must nest, increase strictly and enclose every message in the documented
+//! tick; (3) positions/inputs are the wrapping running sums; (4) arbitrary bytes: items or an error,
+//! no panic, bounded callback invocations (fuel).
 
-pub fn run(_ctx: &Ctx) {
-    // not built yet
+use crate::util::hex;
+use crate::{burn, ensure, ensure_eq, guard, pick, set_fuel, unlimited_fuel, Ctx, Outcome, PResult};
+use libtw2_teehistorian::verif::{Buffer, Callback, Item, Reader};
+use libtw2_teehistorian::Header;
+use proptest::prelude::*;
+use serde::{Deserialize, Serialize};
+use serde_json::json;
+use std::collections::{BTreeMap, BTreeSet};
+use std::sync::atomic::{AtomicU64, Ordering};
+
+/// Key of the known finding: TICK_SKIP does not reset the implicit-tick client id.
+const KEY_TICKSKIP: &str = "tickskip-keeps-prev-cid";
+
+/// PLAYER_NEW / INPUT_NEW client ids above this make the reader's `VecMap` allocate
+/// `cid * 12..44` bytes: resource exhaustion, not the stated property. Excluded from hostile streams.
+const CID_LIMIT: i32 = 1 << 16;
+
+// ---------------------------------------------------------------------------
+// Wire format (doc/teehistorian.md, doc/int.md)
+
+/// 699db17b-8efb-34ff-b1d8-da6f60c15dd1
+const MAGIC: [u8; 16] = [
+    0x69, 0x9d, 0xb1, 0x7b, 0x8e, 0xfb, 0x34, 0xff, 0xb1, 0xd8, 0xda, 0x6f, 0x60, 0xc1, 0x5d, 0xd1,
+];
+
+#[derive(Clone, Copy, Debug, PartialEq)]
+enum F {
+    Int,
+    Str,
+    Uuid,
+    Rest,
+}
+
+/// Known extension messages: (name, uuid, layout of `data`). The first 15 are listed in
+/// doc/teehistorian.md; the last 5 (undocumented) follow teehistorian/src/format/item.rs.
+const EX: &[(&str, &str, &[F])] = &[
+    ("ddnetver_old", "41b49541-f26f-325d-8715-9baf4b544ef9", &[F::Int, F::Int]),
+    ("ddnetver", "1397b63e-ee4e-3919-b86a-b058887fcaf5", &[F::Int, F::Uuid, F::Int, F::Str]),
+    ("auth_init", "60daba5c-52c4-3aeb-b8ba-b2953fb55a17", &[F::Int, F::Int, F::Str]),
+    ("auth_login", "37ecd3b8-9218-3bb9-a71b-a935b86f6a81", &[F::Int, F::Int, F::Str]),
+    ("auth_logout", "d4f5abe8-edd2-3fb9-abd8-1c8bb84f4a63", &[F::Int]),
+    ("joinver6", "1899a382-71e3-36da-937d-c9de6bb95b1d", &[F::Int]),
+    ("joinver7", "59239b05-0540-318d-bea4-9aa1e80e7d2b", &[F::Int]),
+    ("team_save_success", "4560c756-da29-3036-81d4-90a50f0182cd", &[F::Int, F::Uuid, F::Str]),
+    ("team_save_failure", "b29901d5-1244-3bd0-bbde-23d04b1f7ba9", &[F::Int]),
+    ("team_load_success", "e05408d3-a313-33df-9eb3-ddb990ab954a", &[F::Int, F::Uuid, F::Str]),
+    ("team_load_failure", "ef8905a2-c695-3591-a1cd-53d2015992dd", &[F::Int]),
+    ("player_team", "a111c04e-1ea8-38e0-90b1-d7f993ca0da9", &[F::Int, F::Int]),
+    ("team_practice", "5792834e-81d1-34c9-a29b-b5ff25dac3bc", &[F::Int, F::Int]),
+    ("player_ready", "638587c9-3f75-3887-918e-a3c2614ffaa0", &[F::Int]),
+    ("player_swap", "5de9b633-49cf-3e99-9a25-d4a78e9717d7", &[F::Int, F::Int]),
+    ("antibot", "866bfdac-fb49-3c0b-a887-5fe1f3ea00b8", &[F::Rest]),
+    ("player_finish", "68943c01-2348-3e01-9490-3f27f8269d94", &[F::Int, F::Int]),
+    ("player_name", "d016f9b9-4151-3b87-87e5-3a6087eb5f26", &[F::Int, F::Str]),
+    ("player_rejoin", "c1e921d5-96f5-37bb-8a45-7a06f163d27e", &[F::Int]),
+    ("team_finish", "9588b9af-3fdc-3760-8043-82deeee317a5", &[F::Int, F::Int]),
+];
+
+/// TEST(teehistorian-test@ddnet.tw) from the document: unknown to the library.
+const UUID_TEST: &str = "6bb8ba88-0f0b-382e-8dae-dbf4052b8b7d";
+
+fn parse_uuid(s: &str) -> [u8; 16] {
+    let h: String = s.chars().filter(|c| *c != '-').collect();
+    let v = crate::util::unhex(&h);
+    let mut out = [0u8; 16];
+    out.copy_from_slice(&v);
+    out
+}
+
+fn ex_lookup(uuid: &[u8; 16]) -> Option<usize> {
+    EX.iter().position(|e| parse_uuid(e.1) == *uuid)
+}
+
+fn put_int(out: &mut Vec<u8>, v: i32) {
+    let sign = v < 0;
+    let mut bits: u32 = if sign { !(v as u32) } else { v as u32 };
+    out.push(((bits & 0x3f) as u8) | if sign { 0x40 } else { 0 });
+    bits >>= 6;
+    while bits != 0 {
+        *out.last_mut().unwrap() |= 0x80;
+        out.push((bits & 0x7f) as u8);
+        bits >>= 7;
+    }
+}
+
+fn put_str(out: &mut Vec<u8>, s: &[u8]) {
+    out.extend(s.iter().map(|&b| if b == 0 { 1 } else { b }));
+    out.push(0);
+}
+
+fn put_data(out: &mut Vec<u8>, d: &[u8]) {
+    put_int(out, d.len() as i32);
+    out.extend_from_slice(d);
+}
+
+/// One concrete teehistorian message.
+#[derive(Clone, Debug, PartialEq)]
+enum Msg {
+    PlayerDiff { cid: i32, dx: i32, dy: i32 },
+    PlayerNew { cid: i32, x: i32, y: i32 },
+    PlayerOld { cid: i32 },
+    TickSkip { dt: i32 },
+    InputDiff { cid: i32, d: [i32; 10] },
+    InputNew { cid: i32, v: [i32; 10] },
+    Message { cid: i32, msg: Vec<u8> },
+    Join { cid: i32 },
+    Drop { cid: i32, reason: Vec<u8> },
+    Console { cid: i32, flags: i32, cmd: Vec<u8>, args: Vec<Vec<u8>> },
+    Ex { uuid: [u8; 16], data: Vec<u8> },
+    Finish,
+}
+
+impl Msg {
+    fn player_cid(&self) -> Option<i32> {
+        match *self {
+            Msg::PlayerDiff { cid, .. } | Msg::PlayerNew { cid, .. } | Msg::PlayerOld { cid } => Some(cid),
+            _ => None,
+        }
+    }
+}
+
+/// Appends the message; returns the number of bytes of its "kind" part (id, plus cid for
+/// PLAYER_NEW/PLAYER_OLD), which the reader parses separately from the rest.
+fn encode_msg(out: &mut Vec<u8>, m: &Msg) -> usize {
+    let start = out.len();
+    let mut kind_len = 0;
+    match m {
+        Msg::PlayerDiff { cid, dx, dy } => {
+            put_int(out, *cid);
+            kind_len = out.len() - start;
+            put_int(out, *dx);
+            put_int(out, *dy);
+        }
+        Msg::Finish => put_int(out, -1),
+        Msg::TickSkip { dt } => {
+            put_int(out, -2);
+            kind_len = out.len() - start;
+            put_int(out, *dt);
+        }
+        Msg::PlayerNew { cid, x, y } => {
+            put_int(out, -3);
+            put_int(out, *cid);
+            kind_len = out.len() - start;
+            put_int(out, *x);
+            put_int(out, *y);
+        }
+        Msg::PlayerOld { cid } => {
+            put_int(out, -4);
+            put_int(out, *cid);
+        }
+        Msg::InputDiff { cid, d } => {
+            put_int(out, -5);
+            kind_len = out.len() - start;
+            put_int(out, *cid);
+            d.iter().for_each(|v| put_int(out, *v));
+        }
+        Msg::InputNew { cid, v } => {
+            put_int(out, -6);
+            kind_len = out.len() - start;
+            put_int(out, *cid);
+            v.iter().for_each(|v| put_int(out, *v));
+        }
+        Msg::Message { cid, msg } => {
+            put_int(out, -7);
+            kind_len = out.len() - start;
+            put_int(out, *cid);
+            put_data(out, msg);
+        }
+        Msg::Join { cid } => {
+            put_int(out, -8);
+            kind_len = out.len() - start;
+            put_int(out, *cid);
+        }
+        Msg::Drop { cid, reason } => {
+            put_int(out, -9);
+            kind_len = out.len() - start;
+            put_int(out, *cid);
+            put_str(out, reason);
+        }
+        Msg::Console { cid, flags, cmd, args } => {
+            put_int(out, -10);
+            kind_len = out.len() - start;
+            put_int(out, *cid);
+            put_int(out, *flags);
+            put_str(out, cmd);
+            put_int(out, args.len() as i32);
+            args.iter().for_each(|a| put_str(out, a));
+        }
+        Msg::Ex { uuid, data } => {
+            put_int(out, -11);
+            kind_len = out.len() - start;
+            out.extend_from_slice(uuid);
+            put_data(out, data);
+        }
+    }
+    if kind_len == 0 {
+        kind_len = out.len() - start;
+    }
+    kind_len
+}
+
+// ---------------------------------------------------------------------------
+// Owned mirror of the reader's items
+
+#[derive(Clone, Debug, PartialEq)]
+enum Val {
+    I(i32),
+    B(Vec<u8>),
+    U([u8; 16]),
+}
+
+#[derive(Clone, Debug, PartialEq)]
+enum MItem {
+    TickStart(i32),
+    TickEnd(i32),
+    PlayerNew { cid: i32, x: i32, y: i32 },
+    PlayerChange { cid: i32, x: i32, y: i32, ox: i32, oy: i32 },
+    PlayerOld { cid: i32, x: i32, y: i32 },
+    Input { cid: i32, input: [i32; 10] },
+    Message { cid: i32, msg: Vec<u8> },
+    Join { cid: i32 },
+    Drop { cid: i32, reason: Vec<u8> },
+    Console { cid: i32, flag_mask: u32, cmd: Vec<u8>, args: Vec<Vec<u8>> },
+    Ex { name: &'static str, fields: Vec<Val> },
+    UnknownEx { uuid: [u8; 16], data: Vec<u8> },
+}
+
+fn short<T: std::fmt::Debug>(t: &T) -> String {
+    let mut s = format!("{:?}", t);
+    if s.len() > 400 {
+        let mut cut = 400;
+        while !s.is_char_boundary(cut) {
+            cut -= 1;
+        }
+        s.truncate(cut);
+        s.push_str("...");
+    }
+    s
+}
+
+fn own(item: &Item) -> MItem {
+    use Val::{B, I, U};
+    fn ex(name: &'static str, fields: Vec<Val>) -> MItem {
+        MItem::Ex { name, fields }
+    }
+    match item {
+        Item::TickStart(t) => MItem::TickStart(*t),
+        Item::TickEnd(t) => MItem::TickEnd(*t),
+        Item::PlayerNew(p) => MItem::PlayerNew { cid: p.cid, x: p.pos.x, y: p.pos.y },
+        Item::PlayerChange(p) => MItem::PlayerChange {
+            cid: p.cid,
+            x: p.pos.x,
+            y: p.pos.y,
+            ox: p.old_pos.x,
+            oy: p.old_pos.y,
+        },
+        Item::PlayerOld(p) => MItem::PlayerOld { cid: p.cid, x: p.pos.x, y: p.pos.y },
+        Item::Input(i) => MItem::Input { cid: i.cid, input: i.input },
+        Item::Message(m) => MItem::Message { cid: m.cid, msg: m.msg.to_vec() },
+        Item::Join(j) => MItem::Join { cid: j.cid },
+        Item::Drop(d) => MItem::Drop { cid: d.cid, reason: d.reason.to_vec() },
+        Item::ConsoleCommand(c) => MItem::Console {
+            cid: c.cid,
+            flag_mask: c.flag_mask,
+            cmd: c.cmd.to_vec(),
+            args: c.args.iter().map(|a| a.to_vec()).collect(),
+        },
+        Item::Antibot(a) => ex("antibot", vec![B(a.data.to_vec())]),
+        Item::AuthInit(a) => ex("auth_init", vec![I(a.cid), I(a.level), B(a.identity.to_vec())]),
+        Item::AuthLogin(a) => ex("auth_login", vec![I(a.cid), I(a.level), B(a.identity.to_vec())]),
+        Item::AuthLogout(a) => ex("auth_logout", vec![I(a.cid)]),
+        Item::Ddnetver(d) => ex(
+            "ddnetver",
+            vec![I(d.cid), U(*d.connection_id.as_bytes()), I(d.ddnet_version), B(d.ddnet_version_str.to_vec())],
+        ),
+        Item::DdnetverOld(d) => ex("ddnetver_old", vec![I(d.cid), I(d.ddnet_version)]),
+        Item::Joinver6(j) => ex("joinver6", vec![I(j.cid)]),
+        Item::Joinver7(j) => ex("joinver7", vec![I(j.cid)]),
+        Item::PlayerFinish(p) => ex("player_finish", vec![I(p.cid), I(p.time_ticks)]),
+        Item::PlayerName(p) => ex("player_name", vec![I(p.cid), B(p.name.to_vec())]),
+        Item::PlayerReady(p) => ex("player_ready", vec![I(p.cid)]),
+        Item::PlayerRejoin(p) => ex("player_rejoin", vec![I(p.cid)]),
+        Item::PlayerSwap(p) => ex("player_swap", vec![I(p.cid1), I(p.cid2)]),
+        Item::PlayerTeam(p) => ex("player_team", vec![I(p.cid), I(p.team)]),
+        Item::TeamFinish(t) => ex("team_finish", vec![I(t.team), I(t.time_ticks)]),
+        Item::TeamLoadFailure(t) => ex("team_load_failure", vec![I(t.team)]),
+        Item::TeamLoadSuccess(t) => {
+            ex("team_load_success", vec![I(t.team), U(*t.save_uuid.as_bytes()), B(t.save.to_vec())])
+        }
+        Item::TeamPractice(t) => ex("team_practice", vec![I(t.team), I(t.practice)]),
+        Item::TeamSaveFailure(t) => ex("team_save_failure", vec![I(t.team)]),
+        Item::TeamSaveSuccess(t) => {
+            ex("team_save_success", vec![I(t.team), U(*t.save_uuid.as_bytes()), B(t.save.to_vec())])
+        }
+        Item::UnknownEx(u) => MItem::UnknownEx { uuid: *u.uuid.as_bytes(), data: u.data.to_vec() },
+    }
+}
+
+// ---------------------------------------------------------------------------
+// Byte-level decoder written from the documents (used for hostile streams)
+
+#[derive(Clone, Copy, Debug, PartialEq)]
+enum DStop {
+    /// FINISH was read.
+    Finish,
+    /// The stream ends inside a message or without FINISH.
+    Truncated,
+    /// The documents do not define what follows (the reader is free to fail).
+    Undefined(&'static str),
+}
+
+struct Dec<'a> {
+    b: &'a [u8],
+    p: usize,
+    /// an int with non-zero padding bits was read (doc/int.md: "must always be zeroed")
+    soft: bool,
+}
+
+struct Trunc;
+
+impl<'a> Dec<'a> {
+    fn int(&mut self) -> Result<i32, Trunc> {
+        let mut src = *self.b.get(self.p).ok_or(Trunc)?;
+        self.p += 1;
+        let sign = src & 0x40 != 0;
+        let mut bits: u32 = (src & 0x3f) as u32;
+        for i in 0..4 {
+            if src & 0x80 == 0 {
+                break;
+            }
+            src = *self.b.get(self.p).ok_or(Trunc)?;
+            self.p += 1;
+            if i == 3 && src & 0xf0 != 0 {
+                self.soft = true;
+            }
+            bits |= ((src & 0x7f) as u32) << (6 + 7 * i);
+        }
+        Ok((if sign { !bits } else { bits }) as i32)
+    }
+    fn string(&mut self) -> Result<&'a [u8], Trunc> {
+        let rest = &self.b[self.p..];
+        let n = rest.iter().position(|&b| b == 0).ok_or(Trunc)?;
+        self.p += n + 1;
+        Ok(&rest[..n])
+    }
+    fn raw(&mut self, n: usize) -> Result<&'a [u8], Trunc> {
+        let rest = &self.b[self.p..];
+        if rest.len() < n {
+            return Err(Trunc);
+        }
+        self.p += n;
+        Ok(&rest[..n])
+    }
+    fn ints10(&mut self) -> Result<[i32; 10], Trunc> {
+        let mut out = [0; 10];
+        for o in out.iter_mut() {
+            *o = self.int()?;
+        }
+        Ok(out)
+    }
+}
+
+impl From<Trunc> for DStop {
+    fn from(_: Trunc) -> DStop {
+        DStop::Truncated
+    }
+}
+
+fn decode_one(d: &mut Dec, version: u8) -> Result<Msg, DStop> {
+    let id = d.int()?;
+    Ok(match id {
+        i if i >= 0 => Msg::PlayerDiff { cid: i, dx: d.int()?, dy: d.int()? },
+        -1 => Msg::Finish,
+        -2 => Msg::TickSkip { dt: d.int()? },
+        -3 => Msg::PlayerNew { cid: d.int()?, x: d.int()?, y: d.int()? },
+        -4 => Msg::PlayerOld { cid: d.int()? },
+        -5 => Msg::InputDiff { cid: d.int()?, d: d.ints10()? },
+        -6 => Msg::InputNew { cid: d.int()?, v: d.ints10()? },
+        -7 => {
+            let cid = d.int()?;
+            let size = d.int()?;
+            if size < 0 {
+                return Err(DStop::Undefined("negative message size"));
+            }
+            Msg::Message { cid, msg: d.raw(size as usize)?.to_vec() }
+        }
+        -8 => Msg::Join { cid: d.int()? },
+        -9 => Msg::Drop { cid: d.int()?, reason: d.string()?.to_vec() },
+        -10 => {
+            let cid = d.int()?;
+            let flags = d.int()?;
+            let cmd = d.string()?.to_vec();
+            let n = d.int()?;
+            if n < 0 {
+                return Err(DStop::Undefined("negative num_args"));
+            }
+            if n > 16 {
+                return Err(DStop::Undefined("more than 16 console arguments (library limit)"));
+            }
+            let mut args = Vec::new();
+            for _ in 0..n {
+                args.push(d.string()?.to_vec());
+            }
+            Msg::Console { cid, flags, cmd, args }
+        }
+        -11 if version >= 2 => {
+            let mut uuid = [0u8; 16];
+            uuid.copy_from_slice(d.raw(16)?);
+            let size = d.int()?;
+            if size < 0 {
+                return Err(DStop::Undefined("negative ex size"));
+            }
+            Msg::Ex { uuid, data: d.raw(size as usize)?.to_vec() }
+        }
+        _ => return Err(DStop::Undefined("unknown message id")),
+    })
+}
+
+struct Decoded {
+    msgs: Vec<Msg>,
+    /// byte offset where each message starts
+    starts: Vec<usize>,
+    /// number of messages decoded before the first int with non-zero padding was seen
+    firm: usize,
+    stop: DStop,
+}
+
+/// Decodes messages from `b[start..]` until FINISH, the end or something undefined.
+fn decode_body(b: &[u8], start: usize, version: u8) -> Decoded {
+    let mut d = Dec { b, p: start, soft: false };
+    let mut out = Decoded { msgs: Vec::new(), starts: Vec::new(), firm: 0, stop: DStop::Truncated };
+    loop {
+        let at = d.p;
+        match decode_one(&mut d, version) {
+            Ok(m) => {
+                if !d.soft {
+                    out.firm = out.msgs.len() + 1;
+                }
+                let fin = m == Msg::Finish;
+                out.msgs.push(m);
+                out.starts.push(at);
+                if fin {
+                    out.stop = DStop::Finish;
+                    return out;
+                }
+            }
+            Err(stop) => {
+                out.stop = stop;
+                return out;
+            }
+        }
+    }
+}
+
+/// Offset of the first message: 16 bytes magic, NUL-terminated JSON.
+fn body_start(b: &[u8]) -> Option<usize> {
+    if b.len() < 16 {
+        return None;
+    }
+    b[16..].iter().position(|&x| x == 0).map(|n| 16 + n + 1)
+}
+
+// ---------------------------------------------------------------------------
+// Model of doc/teehistorian.md: ticks (pseudo-code), running sums
+
+#[derive(Default)]
+struct DocModel {
+    version: u8,
+    tick: i64,
+    implicit_cid: Option<i32>,
+    /// what the library's `prev_player_cid` holds if it is not reset by TICK_SKIP (known finding)
+    stale_cid: Option<i32>,
+    players: BTreeMap<i32, (i32, i32)>,
+    inputs: BTreeMap<i32, [i32; 10]>,
+    /// (documented tick, item) for every message that produces an item
+    out: Vec<(i32, MItem)>,
+    n_implicit: u32,
+    n_skip: u32,
+    n_ex: u32,
+    n_unknown_ex: u32,
+    n_wrap_pos: u32,
+    n_wrap_input: u32,
+    n_reinput: u32,
+    defect_hits: u32,
+    stop_at_defect: bool,
+    max_tick: i64,
+}
+
+const STOP_KNOWN: &str = "input class of known finding tickskip-keeps-prev-cid";
+
+fn ex_item(uuid: &[u8; 16], data: &[u8]) -> Result<(MItem, bool), &'static str> {
+    let Some(k) = ex_lookup(uuid) else {
+        return Ok((MItem::UnknownEx { uuid: *uuid, data: data.to_vec() }, false));
+    };
+    let (name, _, layout) = EX[k];
+    let mut d = Dec { b: data, p: 0, soft: false };
+    let mut fields = Vec::new();
+    for f in layout {
+        let v = match f {
+            F::Int => d.int().map(Val::I),
+            F::Str => d.string().map(|s| Val::B(s.to_vec())),
+            F::Uuid => d.raw(16).map(|u| {
+                let mut a = [0u8; 16];
+                a.copy_from_slice(u);
+                Val::U(a)
+            }),
+            F::Rest => {
+                let r = d.b[d.p..].to_vec();
+                d.p = d.b.len();
+                Ok(Val::B(r))
+            }
+        };
+        match v {
+            Ok(v) => fields.push(v),
+            Err(Trunc) => return Err("extension data shorter than its documented fields"),
+        }
+    }
+    Ok((MItem::Ex { name, fields }, d.soft))
+}
+
+impl DocModel {
+    fn new(version: u8, stop_at_defect: bool) -> DocModel {
+        DocModel { version, stop_at_defect, ..DocModel::default() }
+    }
+    /// Err(reason): the documents do not define this message in this state.
+    fn feed(&mut self, m: &Msg) -> Result<(), &'static str> {
+        if let Some(cid) = m.player_cid() {
+            if cid < 0 {
+                return Err("negative client id");
+            }
+            let defect = self.implicit_cid.is_none() && self.stale_cid.map_or(false, |p| cid <= p);
+            if defect {
+                if self.stop_at_defect {
+                    return Err(STOP_KNOWN);
+                }
+                self.defect_hits += 1;
+            }
+            let advance = self.implicit_cid.map_or(false, |p| cid <= p);
+            let tick = self.tick + advance as i64;
+            if tick > i32::MAX as i64 {
+                return Err("tick exceeds i32");
+            }
+            let item = match *m {
+                Msg::PlayerNew { x, y, .. } => {
+                    if self.players.contains_key(&cid) {
+                        return Err("PLAYER_NEW for an existing player");
+                    }
+                    self.players.insert(cid, (x, y));
+                    MItem::PlayerNew { cid, x, y }
+                }
+                Msg::PlayerDiff { dx, dy, .. } => {
+                    let Some(p) = self.players.get_mut(&cid) else {
+                        return Err("PLAYER_DIFF without player");
+                    };
+                    let (ox, oy) = *p;
+                    if ox.checked_add(dx).is_none() || oy.checked_add(dy).is_none() {
+                        self.n_wrap_pos += 1;
+                    }
+                    *p = (ox.wrapping_add(dx), oy.wrapping_add(dy));
+                    MItem::PlayerChange { cid, x: p.0, y: p.1, ox, oy }
+                }
+                Msg::PlayerOld { .. } => {
+                    let Some((x, y)) = self.players.remove(&cid) else {
+                        return Err("PLAYER_OLD without player");
+                    };
+                    MItem::PlayerOld { cid, x, y }
+                }
+                _ => unreachable!(),
+            };
+            if advance {
+                self.n_implicit += 1;
+            }
+            self.tick = tick;
+            self.max_tick = self.max_tick.max(tick);
+            self.implicit_cid = Some(cid);
+            self.stale_cid = Some(cid);
+            self.out.push((tick as i32, item));
+            return Ok(());
+        }
+        let item = match m {
+            Msg::TickSkip { dt } => {
+                if *dt < 0 {
+                    return Err("negative dt");
+                }
+                let tick = self.tick + 1 + *dt as i64;
+                if tick > i32::MAX as i64 {
+                    return Err("tick exceeds i32");
+                }
+                self.tick = tick;
+                self.max_tick = self.max_tick.max(tick);
+                self.implicit_cid = None;
+                self.n_skip += 1;
+                return Ok(());
+            }
+            Msg::Finish => return Ok(()),
+            Msg::InputNew { cid, v } => {
+                if *cid < 0 {
+                    return Err("negative client id");
+                }
+                if self.inputs.insert(*cid, *v).is_some() {
+                    self.n_reinput += 1;
+                }
+                MItem::Input { cid: *cid, input: *v }
+            }
+            Msg::InputDiff { cid, d } => {
+                let Some(cur) = self.inputs.get_mut(cid) else {
+                    return Err("INPUT_DIFF without INPUT_NEW");
+                };
+                let mut wrapped = false;
+                for (c, d) in cur.iter_mut().zip(d.iter()) {
+                    wrapped |= c.checked_add(*d).is_none();
+                    *c = c.wrapping_add(*d);
+                }
+                if wrapped {
+                    self.n_wrap_input += 1;
+                }
+                MItem::Input { cid: *cid, input: *cur }
+            }
+            Msg::Message { cid, msg } => MItem::Message { cid: *cid, msg: msg.clone() },
+            Msg::Join { cid } => MItem::Join { cid: *cid },
+            Msg::Drop { cid, reason } => MItem::Drop { cid: *cid, reason: reason.clone() },
+            Msg::Console { cid, flags, cmd, args } => {
+                if args.len() > 16 {
+                    return Err("more than 16 console arguments (library limit)");
+                }
+                MItem::Console { cid: *cid, flag_mask: *flags as u32, cmd: cmd.clone(), args: args.clone() }
+            }
+            Msg::Ex { uuid, data } => {
+                if self.version < 2 {
+                    return Err("EX in a version 1 stream");
+                }
+                let (item, soft) = ex_item(uuid, data)?;
+                if soft {
+                    return Err("int with non-zero padding inside extension data");
+                }
+                self.n_ex += 1;
+                if matches!(item, MItem::UnknownEx { .. }) {
+                    self.n_unknown_ex += 1;
+                }
+                item
+            }
+            _ => unreachable!(),
+        };
+        self.out.push((self.tick as i32, item));
+        Ok(())
+    }
+}
+
+// ---------------------------------------------------------------------------
+// Driving the incremental reader
+
+/// Read callback serving `data` in pieces: first the listed piece sizes (0 = a zero-length read, as
+/// the file reader produces on EINTR), then `then` bytes per call (0 = as much as offered).
+struct Cb<'s> {
+    data: &'s [u8],
+    pos: usize,
+    pieces: &'s [u32],
+    pi: usize,
+    rem: usize,
+    then: usize,
+    reads: u32,
+    zero_reads: u32,
+    empty_offers: u32,
+    cuts: Vec<usize>,
+    record_cuts: bool,
+}
+
+impl<'s> Callback for Cb<'s> {
+    type Error = ();
+    fn read_at_most(&mut self, buf: &mut [u8]) -> Result<Option<usize>, ()> {
+        burn();
+        if buf.is_empty() {
+            self.empty_offers += 1;
+        }
+        let want = if self.rem > 0 {
+            self.rem
+        } else if self.pi < self.pieces.len() {
+            let p = self.pieces[self.pi] as usize;
+            self.pi += 1;
+            if p == 0 {
+                self.zero_reads += 1;
+                return Ok(Some(0));
+            }
+            self.rem = p;
+            p
+        } else if self.then == 0 {
+            usize::MAX
+        } else {
+            self.then
+        };
+        let avail = self.data.len() - self.pos;
+        if avail == 0 {
+            return Ok(None);
+        }
+        let n = want.min(avail).min(buf.len());
+        buf[..n].copy_from_slice(&self.data[self.pos..self.pos + n]);
+        self.pos += n;
+        self.rem -= n.min(self.rem);
+        if n > 0 {
+            self.reads += 1;
+            if self.record_cuts {
+                self.cuts.push(self.pos);
+            }
+        }
+        Ok(Some(n))
+    }
+}
+
+#[derive(Clone, Debug, PartialEq)]
+enum End {
+    Finished,
+    Err(String),
+}
+
+#[derive(Debug)]
+struct RunOut {
+    /// rendered header, None if reading the header failed (then `end` is that error)
+    header: Option<String>,
+    items: Vec<MItem>,
+    end: End,
+    reads: u32,
+    cuts: Vec<usize>,
+}
+
+fn summarize(h: &Header) -> String {
+    let mut cfg: Vec<(String, String)> = h.config.iter().map(|(k, v)| (k.to_string(), v.to_string())).collect();
+    cfg.sort();
+    format!(
+        "version={} game_uuid={} time={} port={} map_name={:?} map_size={} sha256={} crc={:08x} config={:?}",
+        h.version,
+        hex(h.game_uuid.as_bytes()),
+        h.timestamp.to_rfc3339(),
+        h.server_port,
+        h.map_name,
+        h.map_size,
+        h.map_sha256.map(|s| format!("{}", s)).unwrap_or_else(|| "-".into()),
+        h.map_crc,
+        cfg
+    )
+}
+
+type Observer<'o> = &'o mut dyn FnMut(&Reader, &MItem) -> Result<(), String>;
+
+/// Reads the whole stream under one fragmentation. Err = panic / fuel exhaustion / observer failure.
+fn run_reader(stream: &[u8], pieces: &[u32], then: u32, record_cuts: bool, mut obs: Option<Observer>) -> Result<RunOut, String> {
+    let mut cb = Cb {
+        data: stream,
+        pos: 0,
+        pieces,
+        pi: 0,
+        rem: 0,
+        then: then as usize,
+        reads: 0,
+        zero_reads: 0,
+        empty_offers: 0,
+        cuts: Vec::new(),
+        record_cuts,
+    };
+    let mut buffer = Buffer::new();
+    // callback invocations are bounded by the number of bytes + zero-length pieces + 1 (EOF); every
+    // item costs one more unit below
+    set_fuel(8 * stream.len() as i64 + 2 * pieces.len() as i64 + 256);
+    let r = run_reader_inner(&mut cb, &mut buffer, &mut obs);
+    unlimited_fuel();
+    let (header, items, end) = r.map_err(|e| format!("{} [fragmentation: pieces {:?} then {}]", e, short(&pieces), then))?;
+    Ok(RunOut { header, items, end, reads: cb.reads, cuts: cb.cuts })
+}
+
+fn run_reader_inner(cb: &mut Cb, buffer: &mut Buffer, obs: &mut Option<Observer>) -> Result<(Option<String>, Vec<MItem>, End), String> {
+    let r = guard(|| Reader::new(&mut *cb, &mut *buffer).map(|(h, r)| (summarize(&h), r)));
+    let (header, mut reader) = match r {
+        Err(p) => return Err(format!("Reader::new: {}", p)),
+        Ok(Err(e)) => return Ok((None, Vec::new(), End::Err(format!("{:?}", e)))),
+        Ok(Ok(x)) => x,
+    };
+    let mut items = Vec::new();
+    loop {
+        burn();
+        let r = guard(|| reader.read(&mut *cb, &mut *buffer).map(|o| o.map(|it| own(&it))));
+        match r {
+            Err(p) => return Err(format!("Reader::read after {} items: {}", items.len(), p)),
+            Ok(Err(e)) => return Ok((Some(header), items, End::Err(format!("{:?}", e)))),
+            Ok(Ok(None)) => return Ok((Some(header), items, End::Finished)),
+            Ok(Ok(Some(it))) => {
+                if let Some(o) = obs.as_mut() {
+                    o(&reader, &it)?;
+                }
+                items.push(it);
+            }
+        }
+    }
+}
+
+fn same_as_ref(reference: &RunOut, got: &RunOut, what: &str) -> Result<(), String> {
+    ensure_eq!(got.header, reference.header, "{}: header differs from the one-piece read", what);
+    for (i, (a, b)) in got.items.iter().zip(reference.items.iter()).enumerate() {
+        ensure!(a == b, "{}: item #{} is {} but the one-piece read gave {}", what, i, short(a), short(b));
+    }
+    ensure_eq!(got.items.len(), reference.items.len(), "{}: number of items differs from the one-piece read (end {:?} vs {:?})", what, got.end, reference.end);
+    ensure_eq!(got.end, reference.end, "{}: final result differs from the one-piece read", what);
+    Ok(())
+}
+
+/// Proper nesting, strictly increasing tick numbers, every other item inside a pair. Returns the
+/// message items with the number of the enclosing tick.
+fn nest(items: &[MItem], finished: bool) -> Result<Vec<(i32, &MItem)>, String> {
+    let mut open: Option<i32> = None;
+    let mut last: Option<i32> = None;
+    let mut out = Vec::new();
+    for (i, it) in items.iter().enumerate() {
+        match it {
+            MItem::TickStart(t) => {
+                ensure!(open.is_none(), "item #{}: TickStart({}) while tick {:?} is still open", i, t, open);
+                ensure!(last.map_or(true, |l| *t > l), "item #{}: TickStart({}) does not exceed the previous tick {:?}", i, t, last);
+                open = Some(*t);
+                last = Some(*t);
+            }
+            MItem::TickEnd(t) => {
+                ensure!(open == Some(*t), "item #{}: TickEnd({}) but the open tick is {:?}", i, t, open);
+                open = None;
+            }
+            other => match open {
+                Some(t) => out.push((t, other)),
+                None => return Err(format!("item #{} ({}) is outside any TickStart/TickEnd pair", i, short(other))),
+            },
+        }
+    }
+    if finished {
+        ensure!(open.is_none(), "stream finished while tick {:?} is still open", open);
+    }
+    Ok(out)
+}
+
+/// `model` must be a prefix of (or, if `exact`, equal to) what the reader reported.
+fn compare_with_model(model: &[(i32, MItem)], lib: &[(i32, &MItem)], exact: bool) -> Result<(), String> {
+    for (i, (m, l)) in model.iter().zip(lib.iter()).enumerate() {
+        ensure!(
+            m.1 == *l.1,
+            "message item #{}: reader reported {} but the recorded message yields {}",
+            i,
+            short(l.1),
+            short(&m.1)
+        );
+        ensure!(
+            m.0 == l.0,
+            "message item #{} ({}): reader puts it in tick {} but doc/teehistorian.md assigns tick {}",
+            i,
+            short(&m.1),
+            l.0,
+            m.0
+        );
+    }
+    ensure!(
+        lib.len() >= model.len(),
+        "reader reported {} message items, the stream defines at least {} (next would be {})",
+        lib.len(),
+        model.len(),
+        short(&model[lib.len().min(model.len() - 1)])
+    );
+    if exact {
+        ensure!(lib.len() == model.len(), "reader reported {} message items, the stream holds {}", lib.len(), model.len());
+    }
+    Ok(())
+}
+
+// ---------------------------------------------------------------------------
+// Generators: header, history, fragmentation schedules
+
+#[derive(Clone, Debug, Hash, Serialize, Deserialize)]
+pub struct Hdr {
+    pub version: u8,
+    pub game_uuid: [u8; 16],
+    /// year, month, day, hour, minute, second
+    pub time: (u16, u8, u8, u8, u8, u8),
+    /// offset west?, hours, half hour
+    pub tz: (bool, u8, bool),
+    pub port: u16,
+    pub map_name: String,
+    pub map_size: u32,
+    pub sha256: Option<[u8; 32]>,
+    pub crc: u32,
+    pub config: Vec<(String, String)>,
+    /// bit mask of additional (ignored) members
+    pub extra: u8,
+    /// rotation of the member order
+    pub rot: u8,
+    /// length of one long config value (0 = none); > 8192 makes the header outgrow the initial buffer
+    pub long_value: u16,
+}
+
+fn js(s: &str) -> String {
+    serde_json::to_string(s).unwrap()
+}
+
+impl Hdr {
+    fn rfc3339(&self) -> String {
+        let (y, mo, d, h, mi, s) = self.time;
+        let (west, th, half) = self.tz;
+        let zero = th == 0 && !half;
+        format!(
+            "{:04}-{:02}-{:02}T{:02}:{:02}:{:02}{}{:02}:{:02}",
+            y,
+            mo,
+            d,
+            h,
+            mi,
+            s,
+            if west && !zero { '-' } else { '+' },
+            th,
+            if half { 30 } else { 0 }
+        )
+    }
+    fn config_map(&self) -> BTreeMap<String, String> {
+        let mut m: BTreeMap<String, String> = self.config.iter().cloned().collect();
+        if self.long_value > 0 {
+            m.insert("sv_motd".into(), "m".repeat(self.long_value as usize));
+        }
+        m
+    }
+    fn json(&self) -> String {
+        let (y, mo, d, h, mi, s) = self.time;
+        let (west, th, half) = self.tz;
+        let zero = th == 0 && !half;
+        let start_time = if self.version == 1 {
+            format!(
+                "{:04}-{:02}-{:02} {:02}:{:02}:{:02} {}{:02}{:02}",
+                y,
+                mo,
+                d,
+                h,
+                mi,
+                s,
+                if west && !zero { '-' } else { '+' },
+                th,
+                if half { 30 } else { 0 }
+            )
+        } else {
+            self.rfc3339()
+        };
+        let u = hex(&self.game_uuid);
+        let uuid = format!("{}-{}-{}-{}-{}", &u[0..8], &u[8..12], &u[12..16], &u[16..20], &u[20..32]);
+        let cfg: Vec<String> = self.config_map().iter().map(|(k, v)| format!("{}:{}", js(k), js(v))).collect();
+        let mut members: Vec<(String, String)> = vec![
+            ("version".into(), js(&self.version.to_string())),
+            ("game_uuid".into(), js(&uuid)),
+            ("start_time".into(), js(&start_time)),
+            ("server_port".into(), js(&self.port.to_string())),
+            ("map_name".into(), js(&self.map_name)),
+            ("map_size".into(), js(&self.map_size.to_string())),
+            ("map_crc".into(), js(&format!("{:08x}", self.crc))),
+            ("config".into(), format!("{{{}}}", cfg.join(","))),
+        ];
+        if let Some(sha) = &self.sha256 {
+            members.push(("map_sha256".into(), js(&hex(sha))));
+        }
+        if self.extra & 1 != 0 {
+            members.push(("comment".into(), js("teehistorian@ddnet.tw")));
+        }
+        if self.extra & 2 != 0 {
+            members.push(("version_minor".into(), js("4")));
+        }
+        if self.extra & 4 != 0 {
+            members.push(("tuning".into(), "{\"gravity\":\"50\",\"nested\":{\"a\":[1,2.5,null,true]}}".into()));
+        }
+        if self.extra & 8 != 0 {
+            members.push(("uuids".into(), "[\"teehistorian-test@ddnet.tw\",\"\\u0000 \\\\ \\\" \\ud83d\\ude00\"]".into()));
+        }
+        if self.extra & 16 != 0 {
+            members.push(("server_name".into(), js("unnamed \u{1F600} server\u{0}")));
+        }
+        let n = members.len();
+        members.rotate_left(self.rot as usize % n);
+        let body: Vec<String> = members.iter().map(|(k, v)| format!("{}:{}", js(k), v)).collect();
+        format!("{{{}}}", body.join(","))
+    }
+    fn bytes(&self) -> Vec<u8> {
+        let mut out = MAGIC.to_vec();
+        let j = self.json();
+        debug_assert!(!j.as_bytes().contains(&0));
+        out.extend_from_slice(j.as_bytes());
+        out.push(0);
+        out
+    }
+    /// what `summarize` must give for this header
+    fn expected_summary(&self) -> String {
+        let cfg: Vec<(String, String)> = self.config_map().into_iter().collect();
+        format!(
+            "version={} game_uuid={} time={} port={} map_name={:?} map_size={} sha256={} crc={:08x} config={:?}",
+            self.version,
+            hex(&self.game_uuid),
+            self.rfc3339(),
+            self.port,
+            self.map_name,
+            self.map_size,
+            self.sha256.map(|s| hex(&s)).unwrap_or_else(|| "-".into()),
+            self.crc,
+            cfg
+        )
+    }
+}
+
+fn text_strategy(max: usize) -> BoxedStrategy<String> {
+    let ch = prop_oneof![
+        6 => (0x20u8..0x7f).prop_map(|b| b as char),
+        1 => any::<char>(),
+        1 => prop_oneof![Just('"'), Just('\\'), Just('\u{0}'), Just('\n'), Just('\u{1F600}')],
+    ];
+    proptest::collection::vec(ch, 0..=max).prop_map(|v| v.into_iter().collect()).boxed()
+}
+
+fn hdr_strategy() -> BoxedStrategy<Hdr> {
+    let a = (
+        prop_oneof![3 => Just(2u8), 1 => Just(1u8)],
+        any::<[u8; 16]>(),
+        (1970u16..2100, 1u8..=12, 1u8..=28, 0u8..24, 0u8..60, 0u8..60),
+        (any::<bool>(), 0u8..=13, any::<bool>()),
+        any::<u16>(),
+        text_strategy(12),
+        any::<u32>(),
+    );
+    let b = (
+        proptest::option::weighted(0.6, any::<[u8; 32]>()),
+        any::<u32>(),
+        proptest::collection::vec((text_strategy(8), text_strategy(16)), 0..4),
+        0u8..32,
+        any::<u8>(),
+        prop_oneof![12 => Just(0u16), 1 => 1u16..300, 1 => 8000u16..10000],
+    );
+    (a, b)
+        .prop_map(|((version, game_uuid, time, tz, port, map_name, map_size), (sha256, crc, config, extra, rot, long_value))| Hdr {
+            version,
+            game_uuid,
+            time,
+            tz,
+            port,
+            map_name,
+            map_size,
+            sha256,
+            crc,
+            config,
+            extra,
+            rot,
+            long_value,
+        })
+        .boxed()
+}
+
+/// Byte payload: explicit head plus `pad` generated bytes (cheap to generate and to shrink).
+#[derive(Clone, Debug, Hash, Serialize, Deserialize)]
+pub struct Blob {
+    pub head: Vec<u8>,
+    pub pad: u16,
+}
+
+impl Blob {
+    fn bytes(&self) -> Vec<u8> {
+        let mut v = self.head.clone();
+        v.extend((0..self.pad as u32).map(|i| (i.wrapping_mul(31).wrapping_add(7) >> 1) as u8));
+        v
+    }
+    fn text(&self) -> Vec<u8> {
+        self.bytes().into_iter().map(|b| if b == 0 { 1 } else { b }).collect()
+    }
+}
+
+fn blob_strategy() -> BoxedStrategy<Blob> {
+    (
+        proptest::collection::vec(any::<u8>(), 0..20),
+        prop_oneof![80 => Just(0u16), 16 => 1u16..400, 2 => 8100u16..11000, 1 => 16500u16..40000],
+    )
+        .prop_map(|(head, pad)| Blob { head, pad })
+        .boxed()
+}
+
+fn small_blob_strategy() -> BoxedStrategy<Blob> {
+    (proptest::collection::vec(any::<u8>(), 0..12), prop_oneof![9 => Just(0u16), 1 => 1u16..80])
+        .prop_map(|(head, pad)| Blob { head, pad })
+        .boxed()
+}
+
+#[derive(Clone, Debug, Hash, Serialize, Deserialize)]
+pub enum Op {
+    /// PLAYER_NEW if the player does not exist, else PLAYER_OLD (`leave`) or PLAYER_DIFF
+    Player { cid: u8, leave: bool, a: i32, b: i32 },
+    TickSkip { dt: i32 },
+    /// INPUT_NEW if there is no input yet (or `renew`), else INPUT_DIFF
+    Input { cid: u8, renew: bool, vals: [i32; 10] },
+    Message { cid: i32, msg: Blob },
+    Join { cid: i32 },
+    Drop { cid: i32, reason: Blob },
+    Console { cid: i32, flags: i32, cmd: Blob, args: Vec<Blob> },
+    /// a known extension message (index into EX scaled from u8), fields drawn from the parts
+    Ex { kind: u8, ints: [i32; 3], text: Blob, uuid: [u8; 16] },
+    /// unknown extension; `test_uuid` uses the document's TEST uuid
+    UnknownEx { test_uuid: bool, uuid: [u8; 16], data: Blob },
+}
+
+fn i32_strategy() -> BoxedStrategy<i32> {
+    prop_oneof![
+        3 => any::<i32>(),
+        3 => -70i32..70,
+        2 => (0u32..32, any::<bool>(), -2i32..=2).prop_map(|(s, neg, d)| {
+            let b = ((1i64 << s) + d as i64) as i32;
+            if neg { b.wrapping_neg() } else { b }
+        }),
+        1 => prop_oneof![Just(i32::MIN), Just(i32::MAX), Just(0), Just(-1)],
+    ]
+    .boxed()
+}
+
+fn player_cid_strategy() -> BoxedStrategy<u8> {
+    prop_oneof![6 => 0u8..6, 2 => 0u8..64].boxed()
+}
+
+fn any_cid_strategy() -> BoxedStrategy<i32> {
+    prop_oneof![6 => 0i32..8, 2 => 0i32..64, 1 => Just(-1), 1 => any::<i32>()].boxed()
+}
+
+fn op_strategy(blob: fn() -> BoxedStrategy<Blob>) -> BoxedStrategy<Op> {
+    prop_oneof![
+        8 => (player_cid_strategy(), proptest::bool::weighted(0.15), i32_strategy(), i32_strategy())
+            .prop_map(|(cid, leave, a, b)| Op::Player { cid, leave, a, b }),
+        3 => prop_oneof![4 => 0i32..3, 2 => 0i32..1000, 1 => 0i32..=i32::MAX].prop_map(|dt| Op::TickSkip { dt }),
+        4 => (player_cid_strategy(), proptest::bool::weighted(0.1), proptest::array::uniform10(i32_strategy()))
+            .prop_map(|(cid, renew, vals)| Op::Input { cid, renew, vals }),
+        2 => (any_cid_strategy(), blob()).prop_map(|(cid, msg)| Op::Message { cid, msg }),
+        1 => any_cid_strategy().prop_map(|cid| Op::Join { cid }),
+        1 => (any_cid_strategy(), blob()).prop_map(|(cid, reason)| Op::Drop { cid, reason }),
+        1 => (any_cid_strategy(), i32_strategy(), small_blob_strategy(), proptest::collection::vec(small_blob_strategy(), 0..=16))
+            .prop_map(|(cid, flags, cmd, args)| Op::Console { cid, flags, cmd, args }),
+        3 => (any::<u8>(), proptest::array::uniform3(i32_strategy()), small_blob_strategy(), any::<[u8; 16]>())
+            .prop_map(|(kind, ints, text, uuid)| Op::Ex { kind, ints, text, uuid }),
+        1 => (proptest::bool::weighted(0.3), any::<[u8; 16]>(), blob())
+            .prop_map(|(test_uuid, uuid, data)| Op::UnknownEx { test_uuid, uuid, data }),
+    ]
+    .boxed()
+}
+
+fn ex_data(kind: usize, ints: &[i32; 3], text: &Blob, uuid: &[u8; 16]) -> Vec<u8> {
+    let mut out = Vec::new();
+    let mut ni = 0;
+    for f in EX[kind].2 {
+        match f {
+            F::Int => {
+                put_int(&mut out, ints[ni % 3]);
+                ni += 1;
+            }
+            F::Str => put_str(&mut out, &text.text()),
+            F::Uuid => out.extend_from_slice(uuid),
+            F::Rest => out.extend_from_slice(&text.bytes()),
+        }
+    }
+    out
+}
+
+/// Interprets the ops against the server state so that every message is one the format allows in
+/// that state (PLAYER_DIFF/OLD only for existing players, INPUT_DIFF only after INPUT_NEW, ticks
+/// within i32, EX only in version 2). Ends with FINISH.
+fn build_msgs(version: u8, ops: &[Op]) -> Vec<Msg> {
+    let mut players: BTreeSet<i32> = BTreeSet::new();
+    let mut inputs: BTreeSet<i32> = BTreeSet::new();
+    let mut tick: i64 = 0;
+    let mut implicit: Option<i32> = None;
+    let mut out = Vec::new();
+    for op in ops {
+        match op {
+            Op::Player { cid, leave, a, b } => {
+                let cid = *cid as i32;
+                let adv = implicit.map_or(false, |p| cid <= p) as i64;
+                if tick + adv > i32::MAX as i64 {
+                    continue;
+                }
+                tick += adv;
+                implicit = Some(cid);
+                if players.contains(&cid) {
+                    if *leave {
+                        players.remove(&cid);
+                        out.push(Msg::PlayerOld { cid });
+                    } else {
+                        out.push(Msg::PlayerDiff { cid, dx: *a, dy: *b });
+                    }
+                } else {
+                    players.insert(cid);
+                    out.push(Msg::PlayerNew { cid, x: *a, y: *b });
+                }
+            }
+            Op::TickSkip { dt } => {
+                let room = i32::MAX as i64 - tick - 1;
+                if room < 0 {
+                    continue;
+                }
+                let dt = (*dt as i64).min(room);
+                tick += 1 + dt;
+                implicit = None;
+                out.push(Msg::TickSkip { dt: dt as i32 });
+            }
+            Op::Input { cid, renew, vals } => {
+                let cid = *cid as i32;
+                if inputs.contains(&cid) && !*renew {
+                    out.push(Msg::InputDiff { cid, d: *vals });
+                } else {
+                    inputs.insert(cid);
+                    out.push(Msg::InputNew { cid, v: *vals });
+                }
+            }
+            Op::Message { cid, msg } => out.push(Msg::Message { cid: *cid, msg: msg.bytes() }),
+            Op::Join { cid } => out.push(Msg::Join { cid: *cid }),
+            Op::Drop { cid, reason } => {
+                // (strings are re-scanned on every refill: keep the byte-by-byte read affordable)
+                let mut reason = reason.text();
+                reason.truncate(12000);
+                out.push(Msg::Drop { cid: *cid, reason })
+            }
+            Op::Console { cid, flags, cmd, args } => out.push(Msg::Console {
+                cid: *cid,
+                flags: *flags,
+                cmd: cmd.text(),
+                args: args.iter().map(|a| a.text()).collect(),
+            }),
+            Op::Ex { kind, ints, text, uuid } => {
+                if version >= 2 {
+                    let k = (*kind as usize * EX.len()) >> 8;
+                    out.push(Msg::Ex { uuid: parse_uuid(EX[k].1), data: ex_data(k, ints, text, uuid) });
+                }
+            }
+            Op::UnknownEx { test_uuid, uuid, data } => {
+                if version >= 2 {
+                    let uuid = if *test_uuid { parse_uuid(UUID_TEST) } else { *uuid };
+                    out.push(Msg::Ex { uuid, data: data.bytes() });
+                }
+            }
+        }
+    }
+    out.push(Msg::Finish);
+    out
+}
+
+/// Exclusion of the input class of the known finding, by construction: a player record that follows
+/// a TICK_SKIP and whose client id does not exceed the last player record's id. The TICK_SKIPs in
+/// between are removed (the record then advances the tick implicitly, which is a different, valid
+/// history). Returns the number of removed TICK_SKIPs.
+fn avoid_tickskip_class(msgs: &mut Vec<Msg>) -> u64 {
+    let mut out: Vec<Msg> = Vec::with_capacity(msgs.len());
+    let mut skips: Vec<usize> = Vec::new();
+    let mut last: Option<i32> = None;
+    let mut removed = 0;
+    for m in msgs.drain(..) {
+        if let Some(cid) = m.player_cid() {
+            if !skips.is_empty() && last.map_or(false, |p| cid <= p) {
+                for &i in skips.iter().rev() {
+                    out.remove(i);
+                    removed += 1;
+                }
+            }
+            skips.clear();
+            last = Some(cid);
+        } else if matches!(m, Msg::TickSkip { .. }) {
+            skips.push(out.len());
+        }
+        out.push(m);
+    }
+    *msgs = out;
+    removed
+}
+
+struct Stream {
+    bytes: Vec<u8>,
+    header_len: usize,
+    /// (start offset, kind length, total length) per message
+    layout: Vec<(usize, usize, usize)>,
+}
+
+fn build_stream(hdr: &Hdr, msgs: &[Msg]) -> Stream {
+    let mut bytes = hdr.bytes();
+    let header_len = bytes.len();
+    let mut layout = Vec::with_capacity(msgs.len());
+    for m in msgs {
+        let start = bytes.len();
+        let k = encode_msg(&mut bytes, m);
+        layout.push((start, k, bytes.len() - start));
+    }
+    Stream { bytes, header_len, layout }
+}
+
+#[derive(Clone, Debug, Hash, Serialize, Deserialize)]
+pub struct Sched {
+    pub pieces: Vec<u32>,
+    pub then: u32,
+}
+
+fn sched_strategy() -> BoxedStrategy<Sched> {
+    let piece = prop_oneof![
+        1 => Just(0u32),
+        3 => 1u32..4,
+        3 => 1u32..40,
+        2 => 1u32..600,
+        1 => 1000u32..9000,
+    ];
+    let then = prop_oneof![
+        3 => Just(0u32),
+        2 => 1u32..4,
+        2 => 4u32..64,
+        1 => 64u32..1000,
+        1 => prop_oneof![Just(8191u32), Just(8192u32), Just(4096u32)],
+    ];
+    (proptest::collection::vec(piece, 0..12), then).prop_map(|(pieces, then)| Sched { pieces, then }).boxed()
+}
+
+// ---------------------------------------------------------------------------
+// Section: valid histories (doc model + every fragmentation)
+
+#[derive(Clone, Debug, Hash, Serialize, Deserialize)]
+pub struct HistCase {
+    pub hdr: Hdr,
+    pub ops: Vec<Op>,
+    pub scheds: Vec<Sched>,
+    /// split points for streams too long for the complete two-piece enumeration
+    pub splits: Vec<u16>,
+}
+
+fn hist_strategy() -> BoxedStrategy<HistCase> {
+    let ops = prop_oneof![
+        10 => proptest::collection::vec(op_strategy(blob_strategy), 0..40),
+        1 => proptest::collection::vec(op_strategy(small_blob_strategy), 300..700),
+    ];
+    (
+        hdr_strategy(),
+        ops,
+        proptest::collection::vec(sched_strategy(), 6),
+        proptest::collection::vec(any::<u16>(), 16),
+    )
+        .prop_map(|(hdr, ops, scheds, splits)| HistCase { hdr, ops, scheds, splits })
+        .boxed()
+}
+
+#[derive(Default)]
+struct Counters {
+    excluded_known: AtomicU64,
+    runs: AtomicU64,
+    two_piece: AtomicU64,
+    cut_header: AtomicU64,
+    cut_kind: AtomicU64,
+    cut_item: AtomicU64,
+    cut_boundary: AtomicU64,
+    excluded_cid: AtomicU64,
+}
+
+#[derive(Clone, Copy, PartialEq)]
+enum CutAt {
+    Header,
+    Kind,
+    Item,
+    Boundary,
+}
+
+fn classify_cut(s: &Stream, p: usize) -> CutAt {
+    if p < s.header_len {
+        return CutAt::Header;
+    }
+    let i = s.layout.partition_point(|l| l.0 <= p);
+    if i == 0 {
+        return CutAt::Boundary;
+    }
+    let (start, kind, len) = s.layout[i - 1];
+    if p == start || p >= start + len {
+        CutAt::Boundary
+    } else if p < start + kind {
+        CutAt::Kind
+    } else {
+        CutAt::Item
+    }
+}
+
+const TWO_PIECE_ALL_UP_TO: usize = 2048;
+
+fn pos_observer() -> impl FnMut(&Reader, &MItem) -> Result<(), String> {
+    |r: &Reader, it: &MItem| {
+        match it {
+            MItem::PlayerNew { cid, x, y } | MItem::PlayerChange { cid, x, y, .. } => {
+                let p = r.player_pos(*cid).map(|p| (p.x, p.y));
+                ensure_eq!(p, Some((*x, *y)), "Reader::player_pos({}) after {}", cid, short(it));
+            }
+            MItem::PlayerOld { cid, .. } => {
+                let p = r.player_pos(*cid).map(|p| (p.x, p.y));
+                ensure_eq!(p, None, "Reader::player_pos({}) after {}", cid, short(it));
+            }
+            MItem::Input { cid, input } => {
+                ensure_eq!(r.input(*cid), Some(*input), "Reader::input({}) after {}", cid, short(it));
+            }
+            _ => {}
+        }
+        Ok(())
+    }
+}
+
+fn check_history(c: &HistCase, known_open: bool, cnt: &Counters) -> PResult {
+    let version = c.hdr.version;
+    let mut msgs = build_msgs(version, &c.ops);
+    if known_open && avoid_tickskip_class(&mut msgs) > 0 {
+        cnt.excluded_known.fetch_add(1, Ordering::Relaxed);
+    }
+    let s = build_stream(&c.hdr, &msgs);
+    let mut model = DocModel::new(version, false);
+    for m in &msgs {
+        if let Err(e) = model.feed(m) {
+            return Err(format!("harness error: generated message {} is not defined by the documents: {}", short(m), e));
+        }
+    }
+    if known_open {
+        ensure!(model.defect_hits == 0, "harness error: known-finding class not excluded");
+    }
+    // one-piece read = reference; compared with the document model
+    let mut obs = pos_observer();
+    let reference = run_reader(&s.bytes, &[], 0, false, Some(&mut obs))?;
+    cnt.runs.fetch_add(1, Ordering::Relaxed);
+    let what = "one-piece read of a valid stream";
+    ensure!(reference.header.is_some(), "{}: header refused: {:?} [{}]", what, reference.end, short(&c.hdr.json()));
+    ensure_eq!(reference.header, Some(c.hdr.expected_summary()), "{}: header contents", what);
+    let pairs = nest(&reference.items, reference.end == End::Finished).map_err(|e| format!("{}: {}", what, e))?;
+    compare_with_model(&model.out, &pairs, reference.end == End::Finished).map_err(|e| format!("{}: {} (final result {:?})", what, e, reference.end))?;
+    ensure_eq!(reference.end, End::Finished, "{}: final result", what);
+
+    // fragmentations
+    let len = s.bytes.len();
+    let mut max_reads = reference.reads;
+    let bytewise = run_reader(&s.bytes, &[], 1, false, None)?;
+    same_as_ref(&reference, &bytewise, "byte-by-byte read")?;
+    max_reads = max_reads.max(bytewise.reads);
+    let (mut in_header, mut in_kind, mut in_item) = (false, false, false);
+    for (i, sc) in c.scheds.iter().enumerate() {
+        let got = run_reader(&s.bytes, &sc.pieces, sc.then, true, None)?;
+        same_as_ref(&reference, &got, &format!("read under schedule #{} {}", i, short(sc)))?;
+        max_reads = max_reads.max(got.reads);
+        for &p in &got.cuts {
+            if p < len {
+                match classify_cut(&s, p) {
+                    CutAt::Header => in_header = true,
+                    CutAt::Kind => in_kind = true,
+                    CutAt::Item => in_item = true,
+                    CutAt::Boundary => {}
+                }
+            }
+        }
+    }
+    let mut points: Vec<usize> = Vec::new();
+    let all_two_piece = len <= TWO_PIECE_ALL_UP_TO;
+    if all_two_piece {
+        points.extend(1..len);
+    } else {
+        points.extend(c.splits.iter().map(|&k| 1 + pick(k, len - 1)));
+        points.extend([16, s.header_len - 1, s.header_len, s.header_len + 1, 8191, 8192, 8193, 16384, len - 1].iter().filter(|&&p| p >= 1 && p < len));
+        points.sort();
+        points.dedup();
+    }
+    for &p in &points {
+        let got = run_reader(&s.bytes, &[p as u32], 0, false, None)?;
+        same_as_ref(&reference, &got, &format!("two-piece read split at byte {} of {}", p, len))?;
+        let c = match classify_cut(&s, p) {
+            CutAt::Header => &cnt.cut_header,
+            CutAt::Kind => &cnt.cut_kind,
+            CutAt::Item => &cnt.cut_item,
+            CutAt::Boundary => &cnt.cut_boundary,
+        };
+        c.fetch_add(1, Ordering::Relaxed);
+    }
+    cnt.two_piece.fetch_add(points.len() as u64, Ordering::Relaxed);
+    cnt.runs.fetch_add(1 + c.scheds.len() as u64 + points.len() as u64, Ordering::Relaxed);
+
+    let max_item = s.layout.iter().map(|l| l.2).max().unwrap_or(0);
+    let nt = model.n_implicit >= 1 && model.n_skip >= 1 && model.n_ex >= 1 && max_reads >= 3;
+    Ok(Outcome::nt(nt)
+        .class_if(version == 1, "version_1")
+        .class_if(model.n_implicit >= 1, "implicit_tick")
+        .class_if(model.n_skip >= 1, "tick_skip")
+        .class_if(model.n_ex >= 1, "extension_msg")
+        .class_if(model.n_unknown_ex >= 1, "unknown_extension")
+        .class_if(model.n_wrap_pos >= 1, "position_wraps")
+        .class_if(model.n_wrap_input >= 1, "input_wraps")
+        .class_if(model.n_reinput >= 1, "input_new_again")
+        .class_if(model.max_tick == i32::MAX as i64, "tick_reaches_i32_max")
+        .class_if(model.max_tick > 1 << 20, "large_tick")
+        .class_if(msgs.len() == 1, "finish_only")
+        .class_if(len > 8192, "stream_over_8k")
+        .class_if(max_item > 8192, "item_over_8k")
+        .class_if(max_item > 16384, "item_over_16k")
+        .class_if(s.header_len > 8192, "header_over_8k")
+        .class_if(all_two_piece, "all_two_piece_splits")
+        .class_if(in_header, "sched_cut_in_header")
+        .class_if(in_kind, "sched_cut_in_kind")
+        .class_if(in_item, "sched_cut_in_item"))
+}
+
+// ---------------------------------------------------------------------------
+// Section: every 2- and 3-piece split of one fixed stream holding every message kind
+
+fn fixed_msgs() -> Vec<Msg> {
+    let mut v = vec![
+        Msg::TickSkip { dt: 3 },
+        Msg::Join { cid: 0 },
+        Msg::Ex { uuid: parse_uuid(EX[5].1), data: ex_data(5, &[0, 0, 0], &Blob { head: vec![], pad: 0 }, &[0; 16]) },
+        Msg::PlayerNew { cid: 0, x: i32::MAX - 3, y: -70 },
+        Msg::PlayerNew { cid: 5, x: 1000, y: i32::MIN },
+        Msg::InputNew { cid: 0, v: [1, -1, 0, 64, -65, 8192, i32::MAX, i32::MIN, 3, 0] },
+        Msg::PlayerDiff { cid: 0, dx: 10, dy: -10 },
+        Msg::PlayerDiff { cid: 5, dx: -1, dy: -1 },
+        Msg::InputDiff { cid: 0, d: [0, 2, 0, 0, 0, 0, 1, -1, 0, 0] },
+        Msg::Message { cid: 5, msg: vec![0, 1, 2, 0x80, 0xff, 0] },
+        Msg::PlayerDiff { cid: 5, dx: 0, dy: 0 },
+        Msg::TickSkip { dt: 0 },
+        Msg::TickSkip { dt: 100000 },
+        Msg::Console { cid: -1, flags: 0x40, cmd: b"vote".to_vec(), args: vec![b"yes".to_vec(), vec![], b"a b".to_vec()] },
+        Msg::PlayerNew { cid: 63, x: 0, y: 0 },
+        Msg::Drop { cid: 5, reason: b"Timeout \xff".to_vec() },
+        Msg::PlayerOld { cid: 5 },
+        Msg::PlayerOld { cid: 63 },
+        Msg::Ex { uuid: parse_uuid(UUID_TEST), data: vec![1, 2, 3] },
+        Msg::Ex { uuid: [0xab; 16], data: vec![] },
+    ];
+    for k in 0..EX.len() {
+        let text = Blob { head: b"text\x01\xf0".to_vec(), pad: (k % 3) as u16 };
+        v.push(Msg::Ex { uuid: parse_uuid(EX[k].1), data: ex_data(k, &[k as i32, -1000 - k as i32, 1 << 20], &text, &[k as u8; 16]) });
+        if k % 4 == 0 {
+            v.push(Msg::PlayerDiff { cid: 0, dx: k as i32, dy: 1 });
+        }
+    }
+    v.push(Msg::Finish);
+    v
+}
+
+fn fixed_hdr() -> Hdr {
+    Hdr {
+        version: 2,
+        game_uuid: parse_uuid("8f5ad1b4-7a1e-4b2c-9d57-0123456789ab"),
+        time: (2017, 10, 1, 13, 12, 48),
+        tz: (false, 2, false),
+        port: 8303,
+        map_name: "dm1".into(),
+        map_size: 5805,
+        sha256: Some([0x5a; 32]),
+        crc: 0xf2159e6e,
+        config: vec![("sv_name".into(), "x".into())],
+        extra: 1,
+        rot: 0,
+        long_value: 0,
+    }
+}
+
+fn split_of(idx: u64, n: u64) -> (u64, u64) {
+    // idx enumerates pairs 1 <= p <= q <= n-1 row by row (p == q: two pieces)
+    let mut p = 1;
+    let mut idx = idx;
+    loop {
+        let row = n - p;
+        if idx < row {
+            return (p, p + idx);
+        }
+        idx -= row;
+        p += 1;
+    }
+}
+
+fn section_fixed(ctx: &Ctx, known_open: bool, cnt: &Counters) {
+    let mut msgs = fixed_msgs();
+    if known_open {
+        avoid_tickskip_class(&mut msgs);
+    }
+    let hdr = fixed_hdr();
+    let s = build_stream(&hdr, &msgs);
+    let n = s.bytes.len() as u64;
+    let total = (n - 1) * n / 2;
+    let reference = match run_reader(&s.bytes, &[], 0, false, None) {
+        Ok(r) => r,
+        Err(e) => {
+            ctx.violation("fixed_stream_splits", json!({"index": 0, "stream": hex(&s.bytes)}), &e);
+            return;
+        }
+    };
+    let mut model = DocModel::new(2, false);
+    let model_ok = msgs.iter().all(|m| model.feed(m).is_ok());
+    ctx.extra("fixed_stream_len", json!(n));
+    ctx.exhaustive(
+        "fixed_stream_splits",
+        total,
+        |idx| {
+            if idx == 0 {
+                ensure!(model_ok, "harness error: fixed stream not defined by the documents");
+                ensure_eq!(reference.header, Some(hdr.expected_summary()), "fixed stream: header contents");
+                let pairs = nest(&reference.items, reference.end == End::Finished)?;
+                compare_with_model(&model.out, &pairs, true)?;
+                ensure_eq!(reference.end, End::Finished, "fixed stream: final result");
+            }
+            let (p, q) = split_of(idx, n);
+            let pieces = [p as u32, (q - p) as u32];
+            let got = run_reader(&s.bytes, if p == q { &pieces[..1] } else { &pieces[..] }, 0, false, None)?;
+            same_as_ref(&reference, &got, &format!("fixed stream split at bytes {} and {} of {}", p, q, n))?;
+            Ok(got.reads >= 3)
+        },
+        |idx| {
+            let (p, q) = split_of(idx, n);
+            json!({"split_at": [p, q], "stream": hex(&s.bytes)})
+        },
+    );
+    cnt.runs.fetch_add(total, Ordering::Relaxed);
+}
+
+// ---------------------------------------------------------------------------
+// Arbitrary byte streams: truncated, corrupted, random
+
+struct BytesInfo {
+    excluded_cid: bool,
+    excluded_known: bool,
+    header_ok: bool,
+    finished: bool,
+    lib_items: usize,
+    model_items: usize,
+    exact: bool,
+    stop: DStop,
+    err: String,
+    max_reads: u32,
+}
+
+/// Oracle for any byte stream: no panic, bounded callback invocations, identical outcome under all
+/// given fragmentations, proper tick nesting, and agreement with the documents on everything they
+/// define (the messages decoded before the first undefined point).
+fn check_bytes(bytes: &[u8], frags: &[(Vec<u32>, u32)], known_open: bool) -> Result<BytesInfo, String> {
+    let mut info = BytesInfo {
+        excluded_cid: false,
+        excluded_known: false,
+        header_ok: false,
+        finished: false,
+        lib_items: 0,
+        model_items: 0,
+        exact: false,
+        stop: DStop::Truncated,
+        err: String::new(),
+        max_reads: 0,
+    };
+    let start = body_start(bytes);
+    if let Some(start) = start {
+        // pre-scan (as version 2, the superset) for client ids that make the reader allocate a lot
+        let pre = decode_body(bytes, start, 2);
+        let huge = pre.msgs.iter().any(|m| match m {
+            Msg::PlayerNew { cid, .. } | Msg::InputNew { cid, .. } => *cid > CID_LIMIT,
+            _ => false,
+        });
+        if huge {
+            info.excluded_cid = true;
+            return Ok(info);
+        }
+    }
+    let reference = run_reader(bytes, &[], 0, false, None)?;
+    info.max_reads = reference.reads;
+    info.header_ok = reference.header.is_some();
+    info.finished = reference.end == End::Finished;
+    info.lib_items = reference.items.len();
+    if let End::Err(e) = &reference.end {
+        info.err = e.clone();
+    }
+    let pairs = nest(&reference.items, info.finished)?;
+    if let Some(h) = &reference.header {
+        let version: u8 = if h.starts_with("version=1 ") {
+            1
+        } else if h.starts_with("version=2 ") {
+            2
+        } else {
+            return Err(format!("reader accepted a header that is neither version 1 nor 2: {}", short(h)));
+        };
+        let start = start.ok_or_else(|| "reader accepted a header although the stream has no NUL-terminated header string".to_string())?;
+        let dec = decode_body(bytes, start, version);
+        info.stop = dec.stop;
+        let mut model = DocModel::new(version, known_open);
+        let mut defined = 0;
+        for m in &dec.msgs[..dec.firm] {
+            match model.feed(m) {
+                Ok(()) => defined += 1,
+                Err(e) => {
+                    if e == STOP_KNOWN {
+                        info.excluded_known = true;
+                    }
+                    info.stop = DStop::Undefined(e);
+                    break;
+                }
+            }
+        }
+        info.exact = dec.stop == DStop::Finish && defined == dec.msgs.len();
+        info.model_items = model.out.len();
+        compare_with_model(&model.out, &pairs, info.exact).map_err(|e| format!("{} (reader's final result {:?})", e, reference.end))?;
+        if info.exact {
+            ensure_eq!(reference.end, End::Finished, "stream is completely defined by the documents and ends with FINISH; final result");
+        }
+    }
+    for (pieces, then) in frags {
+        let got = run_reader(bytes, pieces, *then, false, None)?;
+        same_as_ref(&reference, &got, &format!("read with pieces {} then {}", short(pieces), then))?;
+        info.max_reads = info.max_reads.max(got.reads);
+    }
+    Ok(info)
+}
+
+fn err_class(e: &str) -> &'static str {
+    const TABLE: &[(&str, &str)] = &[
+        ("UnexpectedEnd", "err_unexpected_end"),
+        ("WrongMagic", "err_wrong_magic"),
+        ("MalformedJson", "err_malformed_json"),
+        ("Malformed", "err_malformed_header_member"),
+        ("UnknownVersion", "err_unknown_version"),
+        ("UnknownType", "err_unknown_type"),
+        ("NegativeDt", "err_negative_dt"),
+        ("NumArgs", "err_num_args"),
+        ("TickOverflow", "err_tick_overflow"),
+        ("InvalidClientId", "err_invalid_cid"),
+        ("PlayerNewDuplicate", "err_player_new_duplicate"),
+        ("WithoutNew", "err_without_new"),
+    ];
+    TABLE.iter().find(|(k, _)| e.contains(k)).map(|(_, c)| *c).unwrap_or("err_other")
+}
+
+fn bytes_outcome(info: &BytesInfo, changed: bool, cnt: &Counters) -> Outcome {
+    if info.excluded_cid {
+        cnt.excluded_cid.fetch_add(1, Ordering::Relaxed);
+        return Outcome::trivial().class("excluded_huge_cid");
+    }
+    if info.excluded_known {
+        cnt.excluded_known.fetch_add(1, Ordering::Relaxed);
+    }
+    let mut o = Outcome::nt(changed && info.header_ok && info.lib_items >= 1 && info.max_reads >= 3)
+        .class_if(!info.header_ok, "header_refused")
+        .class_if(info.finished, "finished")
+        .class_if(info.exact, "fully_defined_by_doc")
+        .class_if(info.header_ok && info.model_items >= 3, "model_checked_3_items")
+        .class_if(info.excluded_known, "stopped_at_known_class")
+        .class_if(matches!(info.stop, DStop::Undefined(_)) && info.header_ok, "reaches_undefined_point");
+    if !info.finished {
+        o = o.class(err_class(&info.err));
+    }
+    o
+}
+
+#[derive(Clone, Debug, Hash, Serialize, Deserialize)]
+pub enum Tok {
+    Id(i8),
+    Int(i32),
+    Byte(u8),
+    Str(Vec<u8>),
+}
+
+#[derive(Clone, Debug, Hash, Serialize, Deserialize)]
+pub enum Mutation {
+    Truncate { at: u16 },
+    Set { body: bool, at: u16, val: u8 },
+    Xor { body: bool, at: u16, bit: u8 },
+    Insert { body: bool, at: u16, bytes: Vec<u8> },
+    Delete { body: bool, at: u16, n: u8 },
+    Dup { at: u16, n: u8 },
+    /// keep the header and a prefix of the body, then message-like garbage
+    Tail { keep: u16, toks: Vec<Tok> },
+    /// replace the header's version string
+    Version { v: i16 },
+    Raw { bytes: Vec<u8> },
+}
+
+fn mutation_strategy() -> BoxedStrategy<Mutation> {
+    let tok = prop_oneof![
+        4 => (-12i8..8).prop_map(Tok::Id),
+        3 => i32_strategy().prop_map(Tok::Int),
+        2 => any::<u8>().prop_map(Tok::Byte),
+        1 => proptest::collection::vec(1u8..=255, 0..6).prop_map(Tok::Str),
+    ];
+    let body = proptest::bool::weighted(0.85);
+    prop_oneof![
+        2 => any::<u16>().prop_map(|at| Mutation::Truncate { at }),
+        3 => (body.clone(), any::<u16>(), prop_oneof![any::<u8>(), Just(0u8), Just(0x40u8), Just(0x80u8), Just(0xffu8)])
+            .prop_map(|(body, at, val)| Mutation::Set { body, at, val }),
+        3 => (body.clone(), any::<u16>(), 0u8..8).prop_map(|(body, at, bit)| Mutation::Xor { body, at, bit }),
+        2 => (body.clone(), any::<u16>(), proptest::collection::vec(any::<u8>(), 1..6))
+            .prop_map(|(body, at, bytes)| Mutation::Insert { body, at, bytes }),
+        2 => (body, any::<u16>(), 1u8..12).prop_map(|(body, at, n)| Mutation::Delete { body, at, n }),
+        1 => (any::<u16>(), 1u8..40).prop_map(|(at, n)| Mutation::Dup { at, n }),
+        4 => (any::<u16>(), proptest::collection::vec(tok, 0..30)).prop_map(|(keep, toks)| Mutation::Tail { keep, toks }),
+        1 => (-2i16..5).prop_map(|v| Mutation::Version { v }),
+        1 => proptest::collection::vec(any::<u8>(), 0..60).prop_map(|bytes| Mutation::Raw { bytes }),
+    ]
+    .boxed()
+}
+
+fn apply_mutation(b: &mut Vec<u8>, m: &Mutation) {
+    let hl = body_start(b).unwrap_or(0).min(b.len());
+    let range = |body: bool, at: u16, len: usize| -> usize {
+        let lo = if body { hl } else { 0 };
+        if len <= lo {
+            return lo.min(len);
+        }
+        lo + pick(at, len - lo)
+    };
+    match m {
+        Mutation::Truncate { at } => {
+            let n = pick(*at, b.len() + 1);
+            b.truncate(n);
+        }
+        Mutation::Set { body, at, val } => {
+            let i = range(*body, *at, b.len());
+            if i < b.len() {
+                b[i] = *val;
+            }
+        }
+        Mutation::Xor { body, at, bit } => {
+            let i = range(*body, *at, b.len());
+            if i < b.len() {
+                b[i] ^= 1 << (bit & 7);
+            }
+        }
+        Mutation::Insert { body, at, bytes } => {
+            let i = range(*body, *at, b.len() + 1).min(b.len());
+            let tail = b.split_off(i);
+            b.extend_from_slice(bytes);
+            b.extend_from_slice(&tail);
+        }
+        Mutation::Delete { body, at, n } => {
+            let i = range(*body, *at, b.len());
+            let e = (i + *n as usize).min(b.len());
+            if i < e {
+                b.drain(i..e);
+            }
+        }
+        Mutation::Dup { at, n } => {
+            let i = range(true, *at, b.len());
+            let e = (i + *n as usize).min(b.len());
+            if i < e {
+                let part = b[i..e].to_vec();
+                let tail = b.split_off(e);
+                b.extend_from_slice(&part);
+                b.extend_from_slice(&tail);
+            }
+        }
+        Mutation::Tail { keep, toks } => {
+            // cut at a message boundary of the (still valid) body
+            let dec = decode_body(b, hl, 2);
+            let mut bounds: Vec<usize> = dec.starts.clone();
+            if bounds.is_empty() {
+                bounds.push(hl);
+            }
+            let cut = bounds[pick(*keep, bounds.len())];
+            b.truncate(cut);
+            for t in toks {
+                match t {
+                    Tok::Id(i) => put_int(b, *i as i32),
+                    Tok::Int(i) => put_int(b, *i),
+                    Tok::Byte(x) => b.push(*x),
+                    Tok::Str(s) => put_str(b, s),
+                }
+            }
+        }
+        Mutation::Version { v } => {
+            let pat = b"\"version\":\"";
+            if let Some(i) = b.windows(pat.len()).position(|w| w == pat) {
+                let i = i + pat.len();
+                if let Some(e) = b[i..].iter().position(|&c| c == b'"') {
+                    let tail = b.split_off(i + e);
+                    b.truncate(i);
+                    b.extend_from_slice(v.to_string().as_bytes());
+                    b.extend_from_slice(&tail);
+                }
+            }
+        }
+        Mutation::Raw { bytes } => {
+            *b = bytes.clone();
+        }
+    }
+}
+
+#[derive(Clone, Debug, Hash, Serialize, Deserialize)]
+pub struct HostileCase {
+    pub hdr: Hdr,
+    pub ops: Vec<Op>,
+    pub muts: Vec<Mutation>,
+    pub scheds: Vec<Sched>,
+    pub splits: Vec<u16>,
+}
+
+fn small_hdr_strategy() -> BoxedStrategy<Hdr> {
+    hdr_strategy()
+        .prop_map(|mut h| {
+            h.long_value = h.long_value.min(40);
+            h
+        })
+        .boxed()
+}
+
+fn hostile_strategy() -> BoxedStrategy<HostileCase> {
+    (
+        small_hdr_strategy(),
+        proptest::collection::vec(op_strategy(small_blob_strategy), 0..14),
+        proptest::collection::vec(mutation_strategy(), 1..4),
+        proptest::collection::vec(sched_strategy(), 2),
+        proptest::collection::vec(any::<u16>(), 4),
+    )
+        .prop_map(|(hdr, ops, muts, scheds, splits)| HostileCase { hdr, ops, muts, scheds, splits })
+        .boxed()
+}
+
+fn check_hostile(c: &HostileCase, known_open: bool, cnt: &Counters) -> PResult {
+    let mut msgs = build_msgs(c.hdr.version, &c.ops);
+    if known_open {
+        avoid_tickskip_class(&mut msgs);
+    }
+    let base = build_stream(&c.hdr, &msgs).bytes;
+    let mut bytes = base.clone();
+    for m in &c.muts {
+        apply_mutation(&mut bytes, m);
+    }
+    let mut frags: Vec<(Vec<u32>, u32)> = vec![(vec![], 1)];
+    frags.extend(c.scheds.iter().map(|s| (s.pieces.clone(), s.then)));
+    if bytes.len() >= 2 {
+        frags.extend(c.splits.iter().map(|&k| (vec![1 + pick(k, bytes.len() - 1) as u32], 0)));
+    }
+    let info = check_bytes(&bytes, &frags, known_open)?;
+    cnt.runs.fetch_add(1 + frags.len() as u64, Ordering::Relaxed);
+    Ok(bytes_outcome(&info, bytes != base, cnt)
+        .class_if(bytes == base, "mutation_without_effect")
+        .class_if(c.muts.iter().any(|m| matches!(m, Mutation::Tail { .. })), "mut_tail")
+        .class_if(c.muts.iter().any(|m| matches!(m, Mutation::Raw { .. })), "mut_raw"))
+}
+
+#[derive(Clone, Debug, Hash, Serialize, Deserialize)]
+pub struct TruncCase {
+    pub hdr: Hdr,
+    pub ops: Vec<Op>,
+    pub sched: Sched,
+}
+
+const TRUNC_ALL_UP_TO: usize = 1200;
+
+/// Every prefix of a valid stream (every 7th position for long streams).
+fn check_truncations(c: &TruncCase, known_open: bool, cnt: &Counters) -> PResult {
+    let mut msgs = build_msgs(c.hdr.version, &c.ops);
+    if known_open {
+        avoid_tickskip_class(&mut msgs);
+    }
+    let s = build_stream(&c.hdr, &msgs);
+    let len = s.bytes.len();
+    let step = if len <= TRUNC_ALL_UP_TO { 1 } else { 7 };
+    let frags = vec![(vec![], 1u32), (c.sched.pieces.clone(), c.sched.then)];
+    let full = check_bytes(&s.bytes, &frags, known_open)?;
+    ensure!(full.exact && full.finished, "harness error: complete valid stream not recognised as fully defined");
+    let mut cut = 0;
+    let mut prefixes = 0u64;
+    let mut with_items = 0;
+    while cut < len {
+        let info = check_bytes(&s.bytes[..cut], &frags, known_open).map_err(|e| format!("stream truncated to {} of {} bytes: {}", cut, len, e))?;
+        ensure!(!info.exact, "harness error: truncated stream recognised as complete");
+        ensure!(info.model_items <= full.model_items, "harness error: truncated stream defines more items");
+        if info.lib_items > 0 {
+            with_items += 1;
+        }
+        prefixes += 1;
+        cut += step;
+    }
+    cnt.runs.fetch_add(3 * (prefixes + 1), Ordering::Relaxed);
+    Ok(Outcome::nt(with_items >= 3 && full.model_items >= 2).class_if(step == 1, "every_prefix").class_if(step != 1, "every_7th_prefix"))
+}
+
+// ---------------------------------------------------------------------------
+
+/// PLAYER_NEW(5), TICK_SKIP(0), PLAYER_NEW(3), FINISH: the document puts the second record in tick 1.
+fn probe_tickskip() -> Result<(), String> {
+    let msgs = vec![
+        Msg::PlayerNew { cid: 5, x: 0, y: 0 },
+        Msg::TickSkip { dt: 0 },
+        Msg::PlayerNew { cid: 3, x: 0, y: 0 },
+        Msg::Finish,
+    ];
+    let s = build_stream(&fixed_hdr(), &msgs);
+    let mut model = DocModel::new(2, false);
+    for m in &msgs {
+        model.feed(m).map_err(|e| format!("harness error: {}", e))?;
+    }
+    let r = run_reader(&s.bytes, &[], 0, false, None)?;
+    let pairs = nest(&r.items, r.end == End::Finished)?;
+    compare_with_model(&model.out, &pairs, true).map_err(|e| format!("PLAYER_NEW(5) TICK_SKIP(0) PLAYER_NEW(3) FINISH: {}; items {}", e, short(&r.items)))?;
+    ensure_eq!(r.end, End::Finished, "final result");
+    Ok(())
+}
+
+pub fn run(ctx: &Ctx) {
+    ctx.set_rule(
+        "valid_history: header + messages written from doc/teehistorian.md for a random server history (players join/move/leave with \
+         wrapping extremes, explicit TICK_SKIPs and implicit tick advances, inputs, every message kind, all 20 known and unknown \
+         extension messages, versions 1 and 2, streams/items/headers larger than the reader's 8 KiB buffer), read in one piece \
+         (compared with the document's tick pseudo-code and running sums), byte by byte, under 6 generated schedules (incl. \
+         zero-length reads) and under every two-piece split (streams <= 2048 bytes, else ~25 split points); non-trivial = >= 1 \
+         implicit tick advance, >= 1 TICK_SKIP, >= 1 extension message, a fragmentation with >= 3 pieces; distinct by case hash. \
+         fixed_stream_splits: every 2- and 3-piece split of one stream holding every message kind (non-trivial = 3 pieces). \
+         truncations: every prefix of a valid stream; hostile: valid stream after 1-3 mutations (truncate, set/xor/insert/delete/dup \
+         bytes, message-like garbage tail, other version, raw bytes), non-trivial = header accepted, >= 1 item, >= 3 pieces",
+    );
+    ctx.assume("the model is an independent writer/decoder written from doc/teehistorian.md and doc/int.md; the data layout of the 5 extension messages missing from the document (antibot, player_finish, player_name, player_rejoin, team_finish) is taken from teehistorian/src/format/item.rs");
+    ctx.assume("hostile streams whose PLAYER_NEW/INPUT_NEW client id exceeds 65536 are excluded (the reader's VecMap allocates proportionally: resource use, not the stated property)");
+    ctx.assume("where the documents define nothing (unknown ids, diff without new, negative sizes, > 16 console arguments, tick beyond i32, ints with padding bits) only panic freedom, termination, tick nesting and fragmentation independence are demanded");
+    let known_open = ctx.known_open(KEY_TICKSKIP);
+    let cnt = Counters::default();
+    ctx.probe(KEY_TICKSKIP, probe_tickskip);
+    section_fixed(ctx, known_open, &cnt);
+    ctx.prop("valid_history", ctx.n(2_000, 50_000), hist_strategy, |c: &HistCase| check_history(c, known_open, &cnt));
+    ctx.prop(
+        "truncations",
+        ctx.n(300, 6_000),
+        || {
+            (small_hdr_strategy(), proptest::collection::vec(op_strategy(small_blob_strategy), 0..14), sched_strategy())
+                .prop_map(|(hdr, ops, sched)| TruncCase { hdr, ops, sched })
+        },
+        |c: &TruncCase| check_truncations(c, known_open, &cnt),
+    );
+    ctx.prop("hostile", ctx.n(40_000, 1_200_000), hostile_strategy, |c: &HostileCase| check_hostile(c, known_open, &cnt));
+    ctx.add_excluded_known(cnt.excluded_known.load(Ordering::Relaxed));
+    ctx.extra("reader_runs", json!(cnt.runs.load(Ordering::Relaxed)));
+    ctx.extra("two_piece_splits_run", json!(cnt.two_piece.load(Ordering::Relaxed)));
+    ctx.extra(
+        "two_piece_split_positions",
+        json!({
+            "inside_header": cnt.cut_header.load(Ordering::Relaxed),
+            "inside_kind": cnt.cut_kind.load(Ordering::Relaxed),
+            "inside_item": cnt.cut_item.load(Ordering::Relaxed),
+            "at_message_boundary": cnt.cut_boundary.load(Ordering::Relaxed),
+        }),
+    );
+    ctx.extra("excluded_huge_client_id", json!(cnt.excluded_cid.load(Ordering::Relaxed)));
 }
